@@ -2,7 +2,8 @@
   C11 — subscriber and PLMN identities are encoded per TS 24.501 / TS 38.413.
   Property theorems only; helper lemmas live in Stgutg/Proofs/Suci.lean.
 
-  Digits are `Nat`s below 10; `asc ds` is the ASCII text the Go code receives.
+  Digits are `Nat`s below 10; `asc ds` is the ASCII text the Go code receives. `ValidImsi mcc mnc msin` (defined in
+  Proofs/Suci.lean): 3-digit MCC, 2- or 3-digit MNC, MSIN of at least one digit, every digit below 10.
   Models: Model/Suci.lean (EncodeSuci, the NG Setup PLMN, the builders' copies), Model/Convert.lean (PlmnIDToNas).
   Specification: Spec/Ts24501Identity.lean (figure 9.11.3.4.3 with an independent decoder, the 3-octet PLMN).
 -/
@@ -11,54 +12,17 @@ import Stgutg.Proofs.Suci
 namespace Stgutg.Props.C11
 open Stgutg Stgutg.Proofs.Suci
 
-/-- an IMSI as the property reads it: 3-digit MCC, 2- or 3-digit MNC, an MSIN of at least one digit
-    (a legal IMSI has at most 15 digits, i.e. MSIN length ≤ 10; no upper bound is needed below) -/
-structure ValidImsi (mcc mnc msin : List Nat) : Prop where
-  mcc3 : mcc.length = 3
-  mnc23 : mnc.length = 2 ∨ mnc.length = 3
-  msin1 : 1 ≤ msin.length
-  digits : ∀ d ∈ mcc ++ mnc ++ msin, d < 10
-
 /-- the hypotheses are satisfiable: the shipped configuration 001/01 and a 3-digit-MNC IMSI with an odd MSIN -/
 example : ValidImsi [0, 0, 1] [0, 1] [0, 0, 0, 0, 0, 0, 0, 0, 0, 1] := ⟨rfl, .inl rfl, by decide, by decide⟩
 example : ValidImsi [3, 1, 0] [4, 1, 0] [1, 2, 3, 4, 5, 6, 7, 8, 9] := ⟨rfl, .inr rfl, by decide, by decide⟩
-
-/-- what `EncodeSuci(imsi, len(mnc))` returns for a valid IMSI, as octets of figure 9.11.3.4.3 -/
-theorem suci_buffer {mcc mnc msin : List Nat} (h : ValidImsi mcc mnc msin) :
-    ∃ o5 o6 o7, Spec.Identity.plmn3 mcc mnc = some [o5, o6, o7] ∧
-      Model.Suci.encodeSuci (asc (mcc ++ mnc ++ msin)) (mnc.length : Int) =
-        .ok ([0x01, o5, o6, o7, 0xf0, 0xff, 0x00, 0x00] ++ Spec.Identity.bcdEncode msin) := by
-  obtain ⟨h3, h23, _, hd⟩ := h
-  match mcc, h3 with
-  | [c1, c2, c3], _ =>
-    rcases h23 with h2 | h3'
-    · match mnc, h2 with
-      | [n1, n2], _ =>
-        have hd' : ∀ d ∈ [c1, c2, c3, n1, n2] ++ msin, d < 10 := fun d hm => hd d (by simpa using hm)
-        refine ⟨_, _, _, ?_, encodeSuci_mnc2 msin hd'⟩
-        have : (Spec.Identity.allDigits [c1, c2, c3] && Spec.Identity.allDigits [n1, n2]) = true := by
-          simp [Spec.Identity.allDigits, Spec.Identity.isDigit, hd' c1, hd' c2, hd' c3, hd' n1, hd' n2]
-        simp [Spec.Identity.plmn3, this]
-    · match mnc, h3' with
-      | [n1, n2, n3], _ =>
-        have hd' : ∀ d ∈ [c1, c2, c3, n1, n2, n3] ++ msin, d < 10 := fun d hm => hd d (by simpa using hm)
-        refine ⟨_, _, _, ?_, encodeSuci_mnc3 msin hd'⟩
-        have : (Spec.Identity.allDigits [c1, c2, c3] && Spec.Identity.allDigits [n1, n2, n3]) = true := by
-          simp [Spec.Identity.allDigits, Spec.Identity.isDigit, hd' c1, hd' c2, hd' c3, hd' n1, hd' n2, hd' n3]
-        simp [Spec.Identity.plmn3, this]
 
 /-- **C11, SUCI.** For every MCC, every 2- or 3-digit MNC and every MSIN (odd or even length) the mobile identity
     built by `EncodeSuci` is read by the independent TS 24.501 9.11.3.4 decoder as the null-scheme SUCI of exactly
     that IMSI: same MCC, MNC and MSIN, routing indicator 0, protection scheme 0, home network key identifier 0. -/
 theorem C11_suci {mcc mnc msin : List Nat} (h : ValidImsi mcc mnc msin) :
     ∃ buf, Model.Suci.encodeSuci (asc (mcc ++ mnc ++ msin)) (mnc.length : Int) = .ok buf ∧
-      Spec.Identity.decodeSuci buf = some (Spec.Identity.nullSchemeSuci mcc mnc msin) := by
-  obtain ⟨o5, o6, o7, hp, hb⟩ := suci_buffer h
-  refine ⟨_, hb, ?_⟩
-  have hm : ∀ d ∈ msin, d < 10 := fun d hd => h.digits d (by simp [hd])
-  have hne : msin ≠ [] := by
-    intro e; have := h.msin1; simp [e] at this
-  exact decodeSuci_shape _ _ _ _ mcc mnc msin (plmn3Decode_plmn3 mcc mnc _ hp) (bcdDecode_encode msin hm) hne
+      Spec.Identity.decodeSuci buf = some (Spec.Identity.nullSchemeSuci mcc mnc msin) :=
+  suci_decodes h
 
 /-- **C11, SUCI = the figure's encoding.** The same buffer is what the specification's own encoder produces. -/
 theorem C11_suci_is_spec_encoding {mcc mnc msin : List Nat} (h : ValidImsi mcc mnc msin) :
